@@ -24,6 +24,9 @@ def main():
         if fn is None and spec["q"] in ("opcode", "step_error"):
             from mirsym import queries_interp as QI
             fn = getattr(QI, "q_" + spec["q"])
+        if fn is None and spec["q"] in ("hash_layer",):
+            from mirsym import queries_hash as QH
+            fn = getattr(QH, "q_" + spec["q"])
         if fn is None and spec["q"] in ("decoders",):
             from mirsym import queries_total as QTT
             fn = getattr(QTT, "q_" + spec["q"])
